@@ -1,9 +1,419 @@
-(* C07 — placeholder obligations; replaced by the full set (scanner, substitution, indentation,
-   identity) as soon as Rewrite/*Proofs.v land. *)
-From Coq Require Import List NArith ZArith Bool.
-From AG Require Import Base.Val Str.MetaVar Rewrite.Indent Rewrite.Template.
+(* C07 — fix-template substitution and re-indentation (replacer/indent.rs, replacer/template.rs,
+   replacer.rs:split_first_meta_var).  Property theorems only; the proofs live in
+   Rewrite/IndentProofs.v and Rewrite/TemplateProofs.v. *)
+From Coq Require Import List NArith Bool Arith.
+From AG Require Import Base.Val Gen.Tables Str.MetaVar Rewrite.Indent Rewrite.IndentProofs
+  Rewrite.Template Rewrite.TemplateProofs.
 Import ListNotations.
 
-Theorem C07_textual_verbatim : forall doc env s, replace_fixer doc env (Textual s) = s.
+(* ================================================================== *)
+(* T1  split / join                                                    *)
+(* ================================================================== *)
+
+Theorem C07_join_split : forall s, join_nl (split_nl s) = s.
+Proof. exact join_split. Qed.
+Print Assumptions C07_join_split.
+
+Theorem C07_split_join : forall ls,
+  ls <> [] -> Forall (fun l => has_newline l = false) ls -> split_nl (join_nl ls) = ls.
+Proof. exact split_join. Qed.
+Print Assumptions C07_split_join.
+
+(* "ab", "", "  c" *)
+Example C07_split_join_ex :
+  let ls := [[97;98]; []; [32;32;99]]%N in
+  ls <> [] /\ Forall (fun l => has_newline l = false) ls /\
+  join_nl ls = [97;98;10;10;32;32;99]%N /\ split_nl (join_nl ls) = ls.
+Proof.
+  cbv zeta. split; [discriminate|]. split; [repeat constructor|].
+  split; vm_compute; reflexivity.
+Qed.
+Print Assumptions C07_split_join_ex.
+
+(* ================================================================== *)
+(* T2  get_indent_at_offset, in terms of the text                      *)
+(* ================================================================== *)
+
+(* leading_spaces (from IndentProofs): number of leading SP bytes *)
+Example C07_leading_spaces_ex : leading_spaces [32;32;32;120;32;121;32]%N = 3.
 Proof. reflexivity. Qed.
-Print Assumptions C07_textual_verbatim.
+Print Assumptions C07_leading_spaces_ex.
+
+Theorem C07_indent_after_newline : forall pre line,
+  has_newline line = false -> length line < MAX_LOOK_AHEAD ->
+  get_indent_at_offset (pre ++ NL :: line) = leading_spaces line.
+Proof. exact get_indent_after_nl. Qed.
+Print Assumptions C07_indent_after_newline.
+
+Theorem C07_indent_first_line : forall line,
+  has_newline line = false -> length line <= MAX_LOOK_AHEAD ->
+  get_indent_at_offset line = leading_spaces line.
+Proof. exact get_indent_first_line. Qed.
+Print Assumptions C07_indent_first_line.
+
+(* "no NL among the last MAX_LOOK_AHEAD bytes" *)
+Theorem C07_indent_long_line : forall src,
+  has_newline (skipn (length src - MAX_LOOK_AHEAD) src) = false ->
+  MAX_LOOK_AHEAD < length src ->
+  get_indent_at_offset src = 0.
+Proof. exact get_indent_long_line. Qed.
+Print Assumptions C07_indent_long_line.
+
+(* pre = "ab\n x", line = "   x y " *)
+Example C07_indent_after_newline_ex :
+  let pre := [97;98;10;32;120]%N in
+  let line := [32;32;32;120;32;121;32]%N in
+  has_newline line = false /\ length line < MAX_LOOK_AHEAD /\
+  get_indent_at_offset (pre ++ NL :: line) = 3.
+Proof.
+  cbv zeta. split; [vm_compute; reflexivity|].
+  split; [apply Nat.ltb_lt; vm_compute; reflexivity | vm_compute; reflexivity].
+Qed.
+Print Assumptions C07_indent_after_newline_ex.
+
+(* a line of 600 blanks (> MAX_LOOK_AHEAD) has "indent" 0, not 600 *)
+Example C07_indent_long_line_ex :
+  let src := repeat SP 600 in
+  has_newline (skipn (length src - MAX_LOOK_AHEAD) src) = false /\
+  MAX_LOOK_AHEAD < length src /\ get_indent_at_offset src = 0 /\ leading_spaces src = 600.
+Proof.
+  cbv zeta. split; [vm_compute; reflexivity|]. split; [apply Nat.ltb_lt; vm_compute; reflexivity|].
+  split; vm_compute; reflexivity.
+Qed.
+Print Assumptions C07_indent_long_line_ex.
+
+(* ================================================================== *)
+(* T3  line-wise view                                                  *)
+(* ================================================================== *)
+
+(* map_cont f s (from IndentProofs): apply f to every line of s but the first *)
+Example C07_map_cont_unfold : forall f s,
+  map_cont f s = match split_nl s with
+                 | [] => []
+                 | first :: rest => join_nl (first :: map f rest)
+                 end.
+Proof. reflexivity. Qed.
+Print Assumptions C07_map_cont_unfold.
+
+Theorem C07_indent_lines_impl : forall k s,
+  indent_lines_impl k (split_nl s) = map_cont (fun l => repeat SP k ++ l) s.
+Proof. exact indent_lines_impl_map_cont. Qed.
+Print Assumptions C07_indent_lines_impl.
+
+Theorem C07_remove_indent : forall k s,
+  (forall l, In l (tl (split_nl s)) -> strip_prefix_n k l <> None) ->
+  (k = 0 \/ match s with b :: _ => b <> SP | [] => True end) ->
+  remove_indent k s = map_cont (skipn k) s.
+Proof. exact remove_indent_map_cont. Qed.
+Print Assumptions C07_remove_indent.
+
+Theorem C07_indent_lines : forall t c s,
+  (match s with b :: _ => b <> SP | [] => True end) ->
+  (forall l, In l (tl (split_nl s)) -> strip_prefix_n c l <> None) ->
+  indent_lines t (MultiLine s c) = map_cont (fun l => repeat SP t ++ skipn c l) s.
+Proof. exact indent_lines_map_cont. Qed.
+Print Assumptions C07_indent_lines.
+
+(* original indent 0: no hypothesis needed *)
+Theorem C07_indent_lines_zero : forall t s,
+  indent_lines t (MultiLine s 0) = map_cont (fun l => repeat SP t ++ l) s.
+Proof. exact indent_lines_zero. Qed.
+Print Assumptions C07_indent_lines_zero.
+
+(* s = "f(\n    a,\n  b)", c = 2; all three branches of the compare (t = 2, 0, 4) *)
+Definition ex_text : str := [102;40;10;32;32;32;32;97;44;10;32;32;98;41]%N.
+
+Example C07_indent_lines_ex :
+  (match ex_text with b :: _ => b <> SP | [] => True end) /\
+  (forall l, In l (tl (split_nl ex_text)) -> strip_prefix_n 2 l <> None) /\
+  indent_lines 2 (MultiLine ex_text 2) = ex_text /\
+  indent_lines 0 (MultiLine ex_text 2) = [102;40;10;32;32;97;44;10;98;41]%N /\
+  indent_lines 4 (MultiLine ex_text 2)
+  = [102;40;10;32;32;32;32;32;32;97;44;10;32;32;32;32;98;41]%N.
+Proof.
+  split; [vm_compute; discriminate|]. split.
+  - intros l Hin. vm_compute in Hin. destruct Hin as [H|[H|[]]]; subst l; vm_compute; discriminate.
+  - repeat split; vm_compute; reflexivity.
+Qed.
+Print Assumptions C07_indent_lines_ex.
+
+(* ================================================================== *)
+(* T4  identity: rewriting a node to itself ("$A" with A := the node) *)
+(* ================================================================== *)
+
+Theorem C07_identity : forall doc s e,
+  s <= e -> e <= length doc ->
+  let text := byte_slice doc s e in
+  let c := get_indent_at_offset (firstn s doc) in
+  (match text with b :: _ => b <> SP | [] => True end) ->
+  (forall l, In l (tl (split_nl text)) -> strip_prefix_n c l <> None) ->
+  generate_replacement doc s (envA s e) tplA = text.
+Proof. exact rewrite_identity. Qed.
+Print Assumptions C07_identity.
+
+Example C07_identity_defs :
+  tplA = create_template DOLLAR [] [36;65]%N /\
+  forall s e, envA s e = {| e_single := [([65]%N, (s, e))]; e_multi := []; e_trans := [] |}.
+Proof. split; reflexivity. Qed.
+Print Assumptions C07_identity_defs.
+
+(* doc = "  f(\n    a,\n  b)\nz", the node is [2,16) = "f(\n    a,\n  b)", c = 2 *)
+Definition ex_doc : str := [32;32;102;40;10;32;32;32;32;97;44;10;32;32;98;41;10;122]%N.
+
+Example C07_identity_ex :
+  let doc := ex_doc in let s := 2 in let e := 16 in
+  let text := byte_slice doc s e in
+  let c := get_indent_at_offset (firstn s doc) in
+  s <= e /\ e <= length doc /\ text = ex_text /\ has_newline text = true /\ c = 2 /\
+  (match text with b :: _ => b <> SP | [] => True end) /\
+  (forall l, In l (tl (split_nl text)) -> strip_prefix_n c l <> None) /\
+  generate_replacement doc s (envA s e) tplA = text.
+Proof.
+  cbv zeta.
+  split; [apply Nat.leb_le; reflexivity|]. split; [apply Nat.leb_le; reflexivity|].
+  split; [vm_compute; reflexivity|]. split; [vm_compute; reflexivity|].
+  split; [vm_compute; reflexivity|]. split; [vm_compute; discriminate|]. split.
+  - intros l Hin. vm_compute in Hin. destruct Hin as [H|[H|[]]]; subst l; vm_compute; discriminate.
+  - vm_compute. reflexivity.
+Qed.
+Print Assumptions C07_identity_ex.
+
+(* single-line node: doc = "  foo(a);", node [2,8) = "foo(a)" *)
+Example C07_identity_oneline_ex :
+  let doc := [32;32;102;111;111;40;97;41;59]%N in let s := 2 in let e := 8 in
+  let text := byte_slice doc s e in
+  let c := get_indent_at_offset (firstn s doc) in
+  s <= e /\ e <= length doc /\ text = [102;111;111;40;97;41]%N /\ has_newline text = false /\
+  c = 2 /\
+  (match text with b :: _ => b <> SP | [] => True end) /\
+  (forall l, In l (tl (split_nl text)) -> strip_prefix_n c l <> None) /\
+  generate_replacement doc s (envA s e) tplA = text.
+Proof.
+  cbv zeta.
+  split; [apply Nat.leb_le; reflexivity|]. split; [apply Nat.leb_le; reflexivity|].
+  split; [vm_compute; reflexivity|]. split; [vm_compute; reflexivity|].
+  split; [vm_compute; reflexivity|]. split; [vm_compute; discriminate|]. split.
+  - intros l Hin. vm_compute in Hin. destruct Hin.
+  - vm_compute. reflexivity.
+Qed.
+Print Assumptions C07_identity_oneline_ex.
+
+(* both hypotheses are needed: the identity is FALSE of the code without them *)
+(* doc = "  f(\na)", node [2,7) = "f(\na)": the continuation line has less indent than the node *)
+Example C07_identity_refuted_shallow_line :
+  let doc := [32;32;102;40;10;97;41]%N in
+  byte_slice doc 2 7 = [102;40;10;97;41]%N /\
+  generate_replacement doc 2 (envA 2 7) tplA = [102;40;10;32;32;97;41]%N.
+Proof. split; vm_compute; reflexivity. Qed.
+Print Assumptions C07_identity_refuted_shallow_line.
+
+(* doc = "x\n  f(\n  a)", range [3,11) = " f(\n  a)" starts with a blank, c = 1 *)
+Example C07_identity_refuted_leading_blank :
+  let doc := [120;10;32;32;102;40;10;32;32;97;41]%N in
+  byte_slice doc 3 11 = [32;102;40;10;32;32;97;41]%N /\
+  generate_replacement doc 3 (envA 3 11) tplA = [102;40;10;32;32;97;41]%N.
+Proof. split; vm_compute; reflexivity. Qed.
+Print Assumptions C07_identity_refuted_leading_blank.
+
+(* ================================================================== *)
+(* T5  relative indentation is kept                                    *)
+(* ================================================================== *)
+
+Theorem C07_indent_single_multiline : forall doc env v s e,
+  tv_kind v = KSingle ->
+  assoc (tv_name v) (e_single env) = Some (s, e) ->
+  let text := byte_slice doc s e in
+  let c := get_indent_at_offset (firstn s doc) in
+  has_newline text = true ->
+  (match text with b :: _ => b <> SP | [] => True end) ->
+  (forall l, In l (tl (split_nl text)) -> strip_prefix_n c l <> None) ->
+  maybe_get_var doc env v
+  = Some (map_cont (fun l => repeat SP (tv_indent v) ++ skipn c l) text).
+Proof. exact maybe_get_var_single_multiline. Qed.
+Print Assumptions C07_indent_single_multiline.
+
+Theorem C07_indent_single_oneline : forall doc env v s e,
+  tv_kind v = KSingle ->
+  assoc (tv_name v) (e_single env) = Some (s, e) ->
+  has_newline (byte_slice doc s e) = false ->
+  maybe_get_var doc env v = Some (byte_slice doc s e).
+Proof. exact maybe_get_var_single_oneline. Qed.
+Print Assumptions C07_indent_single_oneline.
+
+Theorem C07_indent_multiple_multiline : forall doc env v s0 e0 more,
+  tv_kind v = KMultiple ->
+  assoc (tv_name v) (e_multi env) = Some ((s0, e0) :: more) ->
+  let e := snd (last more (s0, e0)) in
+  let text := byte_slice doc s0 e in
+  let c := get_indent_at_offset (firstn s0 doc) in
+  has_newline text = true ->
+  (match text with b :: _ => b <> SP | [] => True end) ->
+  (forall l, In l (tl (split_nl text)) -> strip_prefix_n c l <> None) ->
+  maybe_get_var doc env v
+  = Some (map_cont (fun l => repeat SP (tv_indent v) ++ skipn c l) text).
+Proof. exact maybe_get_var_multiple_multiline. Qed.
+Print Assumptions C07_indent_multiple_multiline.
+
+Theorem C07_indent_multiple_oneline : forall doc env v s0 e0 more,
+  tv_kind v = KMultiple ->
+  assoc (tv_name v) (e_multi env) = Some ((s0, e0) :: more) ->
+  let e := snd (last more (s0, e0)) in
+  has_newline (byte_slice doc s0 e) = false ->
+  maybe_get_var doc env v = Some (byte_slice doc s0 e).
+Proof. exact maybe_get_var_multiple_oneline. Qed.
+Print Assumptions C07_indent_multiple_oneline.
+
+(* transformed text carries no original indent: every continuation line is shifted by the slot
+   (for a slot indent of 0, repeat SP 0 ++ l = l and the text is unchanged) *)
+Theorem C07_indent_transformed : forall doc env v src,
+  tv_kind v = KTransformed ->
+  assoc (tv_name v) (e_trans env) = Some src ->
+  maybe_get_var doc env v = Some (map_cont (fun l => repeat SP (tv_indent v) ++ l) src).
+Proof. exact maybe_get_var_transformed. Qed.
+Print Assumptions C07_indent_transformed.
+
+Theorem C07_indent_final : forall doc mstart env t,
+  let m := get_indent_at_offset (firstn mstart doc) in
+  generate_replacement doc mstart env t
+  = map_cont (fun l => repeat SP m ++ l) (replace_fixer doc env t).
+Proof. exact generate_replacement_map_cont. Qed.
+Print Assumptions C07_indent_final.
+
+Theorem C07_indent_final_m0 : forall doc mstart env t,
+  get_indent_at_offset (firstn mstart doc) = 0 ->
+  generate_replacement doc mstart env t = replace_fixer doc env t.
+Proof. exact generate_replacement_m0. Qed.
+Print Assumptions C07_indent_final_m0.
+
+(* the capture of C07_identity_ex placed in a slot of indent 4, and a transformed text in a
+   slot of indent 3 / 0 *)
+Example C07_indent_ex :
+  let v := {| tv_kind := KSingle; tv_name := [65]%N; tv_indent := 4 |} in
+  let w k := {| tv_kind := KTransformed; tv_name := [66]%N; tv_indent := k |} in
+  let env := {| e_single := [([65]%N, (2, 16))]; e_multi := [];
+                e_trans := [([66]%N, [97;10;32;98]%N)] |} in
+  assoc (tv_name v) (e_single env) = Some (2, 16) /\
+  maybe_get_var ex_doc env v
+  = Some [102;40;10;32;32;32;32;32;32;97;44;10;32;32;32;32;98;41]%N /\
+  maybe_get_var ex_doc env (w 3) = Some [97;10;32;32;32;32;98]%N /\
+  maybe_get_var ex_doc env (w 0) = Some [97;10;32;98]%N.
+Proof. repeat split; vm_compute; reflexivity. Qed.
+Print Assumptions C07_indent_ex.
+
+(* ================================================================== *)
+(* T6  substitution                                                    *)
+(* ================================================================== *)
+
+Theorem C07_subst : forall doc env f0 fs vars,
+  length fs = length vars ->
+  replace_fixer doc env (WithMetaVar (f0 :: fs) vars)
+  = f0 ++ concat (map (fun '(v, f) =>
+                         (match maybe_get_var doc env v with Some b => b | None => [] end) ++ f)
+                      (combine vars fs)).
+Proof. exact replace_fixer_with_vars. Qed.
+Print Assumptions C07_subst.
+
+Theorem C07_subst_textual : forall doc env s, replace_fixer doc env (Textual s) = s.
+Proof. exact replace_fixer_textual. Qed.
+Print Assumptions C07_subst_textual.
+
+(* an unbound variable yields None, i.e. contributes the empty string in C07_subst *)
+Theorem C07_subst_unbound : forall doc env v,
+  match tv_kind v with
+  | KSingle => assoc (tv_name v) (e_single env) = None
+  | KMultiple => assoc (tv_name v) (e_multi env) = None
+  | KTransformed => assoc (tv_name v) (e_trans env) = None
+  end ->
+  maybe_get_var doc env v = None.
+Proof. exact maybe_get_var_unbound. Qed.
+Print Assumptions C07_subst_unbound.
+
+Theorem C07_scanner_lengths : forall mc tr t fs vs,
+  create_template mc tr t = WithMetaVar fs vs -> length fs = S (length vs).
+Proof. exact create_template_lengths. Qed.
+Print Assumptions C07_scanner_lengths.
+
+(* template "g($A, $X)" on ex_doc with A := [13,15) = "b)" and X unbound *)
+Example C07_subst_ex :
+  let t := create_template DOLLAR [] [103;40;36;65;44;32;36;88;41]%N in
+  let env := {| e_single := [([65]%N, (13, 15))]; e_multi := []; e_trans := [] |} in
+  t = WithMetaVar [[103;40]; [44;32]; [41]]%N
+        [{| tv_kind := KSingle; tv_name := [65]%N; tv_indent := 0 |};
+         {| tv_kind := KSingle; tv_name := [88]%N; tv_indent := 0 |}] /\
+  replace_fixer ex_doc env t = [103;40;32;98;44;32;41]%N.
+Proof. split; vm_compute; reflexivity. Qed.
+Print Assumptions C07_subst_ex.
+
+(* ================================================================== *)
+(* T7  the template scanner agrees with a byte-at-a-time automaton     *)
+(* ================================================================== *)
+
+(* tokens tr t = auto tr ALit [] t, the automaton of TemplateProofs.v:
+   states ALit / ASig k / AName k name_rev, one byte per step *)
+Theorem C07_scanner : forall tr t,
+  scan_view (tpl_scan (S (length t)) DOLLAR tr [] [] t) = tokens tr t.
+Proof. exact scanner_automaton. Qed.
+Print Assumptions C07_scanner.
+
+Example C07_scanner_defs :
+  (forall p, scan_view p = (fst p, map (fun v => (tv_kind v, tv_name v)) (snd p))) /\
+  (forall tr t, tokens tr t = auto tr ALit [] t).
+Proof. split; reflexivity. Qed.
+Print Assumptions C07_scanner_defs.
+
+(* "x$A $$$BC$$$$B$a$$_1-$" with B a transform name:
+   fragments "x" " " "$" "$a" "-$"; variables A, $$$BC, $$$B, _1 *)
+Example C07_scanner_ex :
+  tokens [[66]%N] [120;36;65;32;36;36;36;66;67;36;36;36;36;66;36;97;36;36;95;49;45;36]%N
+  = ([[120]; [32]; [36]; [36;97]; [45;36]]%N,
+     [(KSingle, [65]%N); (KMultiple, [66;67]%N); (KMultiple, [66]%N); (KSingle, [95;49]%N)]) /\
+  tokens [[66]%N] [36;66;36;36;66;48]%N
+  = ([[]; []; []], [(KTransformed, [66]%N); (KSingle, [66;48]%N)]).
+Proof. split; vm_compute; reflexivity. Qed.
+Print Assumptions C07_scanner_ex.
+
+(* round trip, relational form (spelled, from TemplateProofs): the template text is the
+   fragments interleaved with spellings "1..3 sigils + name"; names are non-empty, made of
+   name bytes and maximal; kinds follow the sigil count / transform list; the slot indent of a
+   variable is the indent at the end of the template text before its first sigil *)
+Theorem C07_scanner_roundtrip : forall tr t fs vs,
+  create_template DOLLAR tr t = WithMetaVar fs vs -> spelled tr [] fs vs t.
+Proof. exact create_template_spelled. Qed.
+Print Assumptions C07_scanner_roundtrip.
+
+(* template "f(\n  $A,\n    $$$B)": slot indents 2 and 4 *)
+Example C07_scanner_slot_indent_ex :
+  create_template DOLLAR [] [102;40;10;32;32;36;65;44;10;32;32;32;32;36;36;36;66;41]%N
+  = WithMetaVar [[102;40;10;32;32]; [44;10;32;32;32;32]; [41]]%N
+      [{| tv_kind := KSingle; tv_name := [65]%N; tv_indent := 2 |};
+       {| tv_kind := KMultiple; tv_name := [66]%N; tv_indent := 4 |}].
+Proof. vm_compute. reflexivity. Qed.
+Print Assumptions C07_scanner_slot_indent_ex.
+
+(* round trip, functional form *)
+Theorem C07_scanner_roundtrip_concat : forall tr t fs vs,
+  create_template DOLLAR tr t = WithMetaVar fs vs ->
+  exists ks, length ks = length vs /\
+             Forall (fun kv => 1 <= fst kv <= 3 /\
+                               tv_kind (snd kv) = kind_of tr (fst kv) (tv_name (snd kv)))
+                    (combine ks vs) /\
+             t = interleave fs (map spelling (combine ks vs)).
+Proof. exact create_template_roundtrip. Qed.
+Print Assumptions C07_scanner_roundtrip_concat.
+
+Theorem C07_scanner_textual : forall tr t,
+  existsb (N.eqb DOLLAR) t = false -> create_template DOLLAR tr t = Textual t.
+Proof. exact create_template_no_sigil. Qed.
+Print Assumptions C07_scanner_textual.
+
+Theorem C07_scanner_names : forall tr t fs vs,
+  create_template DOLLAR tr t = WithMetaVar fs vs ->
+  Forall (fun v => tv_name v <> [] /\ forallb is_mv_char (tv_name v) = true) vs.
+Proof. exact create_template_names. Qed.
+Print Assumptions C07_scanner_names.
+
+Theorem C07_scanner_maximal : forall tr t fs vs,
+  create_template DOLLAR tr t = WithMetaVar fs vs ->
+  Forall (fun f => match f with c :: _ => is_mv_char c = false | [] => True end) (tl fs).
+Proof. exact create_template_maximal. Qed.
+Print Assumptions C07_scanner_maximal.
